@@ -420,6 +420,9 @@ REBOUND_SRC = ("DEFAULT_TIMEOUT = 2.5\nNAME = 'n'\nITEMS = [1]\n"
                "lit2 = 1\nfor lit2 in ('a',):\n    pass\n"           # ... by a loop
                "lit3 = 1\nwith open(__file__) as lit3:\n    pass\n"  # ... by a with statement
                "aug = 1\naug += 1.5\n"                                # augmented: int + float
+               "flags = True\nflags += True\n"                        # bool + bool is an int
+               "HALF = 2 ** -1\nPOW = 2 ** 8\nSUM = 1 + 2\nCAT = 'a' + 'b'\nBOTH = [1] + [2]\nQUO = 7 // 2\nMODF = 7 % 2.0\nNEG = True - True\n"
+               "TRUTH = True\nTRUTH &= False\nshift = 1\nshift <<= 70\nmixed = 1\nmixed *= 'ab'\n"
                "cond = 1\nif True:\n    cond = 'taken'\n"
                "class Limits:\n    'doc'\n    size = 10\n    size = DEFAULT_TIMEOUT\n    label = 1\n    label = 'l'\n    ratio = NAME\n    ratio = 0.5\n"
                "    def __init__(self):\n        'doc'\n        self.depth = 1\n        self.depth = NAME\n")
@@ -460,6 +463,38 @@ def check_rebound_literal_types(scratch: Path) -> List[Dict[str, Any]]:
     return out
 
 
+WRAP_SRC = ("def convert(x):\n    'module-level convert'\ndef build(x):\n    'module-level build'\n"
+            "class Base:\n    'doc'\n    def convert(self, x):\n        'method convert'\n    def build(cls):\n        'class method build'\n    build = classmethod(build)\n"
+            "    def util(x):\n        'static util'\n    util = staticmethod(util)\n    def plain(self):\n        'plain'\n"
+            "class Derived(Base):\n    'doc'\n    convert = staticmethod(convert)\n    plain = classmethod(build)\n"
+            "class Further(Derived):\n    'doc'\n    util = classmethod(convert)\n")
+_WRAP_ORACLE = ("import sys, json, importlib; sys.path.insert(0, sys.argv[1]); m = importlib.import_module(sys.argv[2]); out = {}\n"
+                "for n in ('convert', 'build', 'util', 'plain'):\n"
+                "    v = vars(m.Base)[n]\n"
+                "    out[n] = 'STATIC_METHOD' if isinstance(v, staticmethod) else 'CLASS_METHOD' if isinstance(v, classmethod) else 'METHOD'\n"
+                "print(json.dumps(out))")
+
+
+def check_wrapping_in_subclasses(scratch: Path) -> List[Dict[str, Any]]:
+    """`name = staticmethod(something)` in the body of a SUBCLASS binds a name of the subclass: the method of that name the base
+       class defines keeps its kind (compared with what CPython has in Base.__dict__)."""
+    base = scratch / "wrapsub"
+    base.mkdir(parents=True)
+    (base / "wrapmod.py").write_text(WRAP_SRC)
+    r = subprocess.run([sys.executable, "-I", "-c", _WRAP_ORACLE, str(base), "wrapmod"], capture_output=True, text=True, timeout=60)
+    if r.returncode != 0:
+        raise RuntimeError("wrapping oracle failed: " + r.stderr[-400:])
+    want = json.loads(r.stdout)
+    b = P.build_sources(paths=[base / "wrapmod.py"], record_states=False)
+    out: List[Dict[str, Any]] = []
+    for name, kind in sorted(want.items()):
+        o = b["system"].allobjects.get("wrapmod.Base." + name)
+        got = o.kind.name if o is not None and o.kind is not None else None
+        if got != kind:
+            out.append({"object": "Base." + name, "expected": kind, "got": got, "what": "wrapping in subclasses: kind of the base's method"})
+    return out
+
+
 def check(scratch: Path) -> List[Dict[str, Any]]:
     base = scratch / "docassign"
     for rel, text in FILES.items():
@@ -485,4 +520,4 @@ def check(scratch: Path) -> List[Dict[str, Any]]:
             shown = rendered_text(o)
             if doc not in shown:
                 out.append({"object": name, "expected": doc, "got": shown[:200], "what": "docstring as rendered"})
-    return out + check_fields(scratch) + check_overload_neighbours(scratch) + check_rebuild_history(scratch) + check_statics(scratch) + check_blank_docstrings(scratch) + check_assignment_targets(scratch) + check_async_kinds(scratch) + check_overriding_variables(scratch) + check_property_docstrings(scratch) + check_rebound_literal_types(scratch)
+    return out + check_fields(scratch) + check_overload_neighbours(scratch) + check_rebuild_history(scratch) + check_statics(scratch) + check_blank_docstrings(scratch) + check_assignment_targets(scratch) + check_async_kinds(scratch) + check_overriding_variables(scratch) + check_property_docstrings(scratch) + check_rebound_literal_types(scratch) + check_wrapping_in_subclasses(scratch)
